@@ -6,7 +6,7 @@ import numpy as np
 
 from . import registry, tasks
 from .elitist import is_elitist_under
-from .harness import canon_num
+from .harness import canon_num, msg_token
 
 REL = 1e-12
 
@@ -59,7 +59,7 @@ def m_c01(ex):
         pr = tasks.position_problem(ex.space, a.position)
         if pr is not None and pr[0] not in seen:
             seen.add(pr[0])
-            out.append(('C01', f"C01|{ex.scn['opt']}|{pr[0]}|{encoding_tag(ex)}",
+            out.append(('C01', f"C01|{ex.scn['opt']}|{pr[0]}",
                         f"generation {k} agent {j} coordinate {pr[1]} position {a.position!r:.200}"))
     return out
 
@@ -75,14 +75,14 @@ def m_c02(ex):
         uc = tasks.user_cost(t, a.position)
         if not _close(uc, a.cost) and 'cost' not in seen:
             seen.add('cost')
-            out.append(('C02', f"C02|{ex.scn['opt']}|cost-mismatch|{encoding_tag(ex)}",
+            out.append(('C02', f"C02|{ex.scn['opt']}|cost-mismatch",
                         f"generation {k} agent {j}: reported cost {a.cost!r}, objective at reported position {uc!r}, "
                         f"position {a.position!r:.160}"))
         if not (isinstance(a.cost, float) and math.isnan(a.cost)):
             rf = ref_fitness(a.cost)
             if not _close(rf, a.fitness) and 'fit' not in seen:
                 seen.add('fit')
-                out.append(('C02', f"C02|{ex.scn['opt']}|fitness-mismatch|{encoding_tag(ex)}",
+                out.append(('C02', f"C02|{ex.scn['opt']}|fitness-mismatch",
                             f"generation {k} agent {j}: cost {a.cost!r} fitness {a.fitness!r} expected {rf!r}"))
     return out
 
@@ -165,21 +165,23 @@ def m_c05(ex):
         if reason in seen:
             continue
         seen.add(reason)
-        out.append(('C05', f"C05|{ex.scn['opt']}|{reason}|{encoding_tag(ex)}", f"coordinate {coord} argument {arg}"))
+        out.append(('C05', f"C05|{ex.scn['opt']}|{reason}", f"coordinate {coord} argument {arg}"))
     return out
 
 
 def c06_key(ex):
     t, fn, where, msg = ex.exc
-    return f"C06|{ex.scn['opt']}|{t}|{fn}|{encoding_tag(ex)}"
+    return f"C06|{ex.scn['opt']}|{t}|{fn}|{msg_token(msg)}"
 
 
 def m_c06(ex):
+    if encoding_tag(ex) != 'continuous':
+        return []   # integer-coded tasks are judged per (optimizer, encoding) pair on the aggregate (mc.props.c06)
     if ex.exc is not None:
         t, fn, where, msg = ex.exc
         return [('C06', c06_key(ex), f"{t} in {fn} ({where}): {msg}")]
     if ex.result is None or len(ex.result.evolution) < 2:
-        return [('C06', f"C06|{ex.scn['opt']}|incomplete-result|{encoding_tag(ex)}", 'fewer than 2 generations')]
+        return [('C06', f"C06|{ex.scn['opt']}|incomplete-result", 'fewer than 2 generations')]
     return []
 
 
